@@ -72,6 +72,9 @@ def _work(mod_name, seed, idxs, tier, opts):
     faulthandler.dump_traceback_later(3 * limit * max(1, len(idxs)) + 60, exit=True)
     signal.signal(signal.SIGALRM, _alarm)
     mod = importlib.import_module(mod_name)
+    if tier == 'thorough':
+        from . import gen as _gen
+        _gen.BIG = True
     out = []
     for idx in idxs:
         t0 = time.time()
